@@ -1607,6 +1607,7 @@ def _g_where_out(g, ins):
     need(all(b in (1, a) for a, b in zip(x.shape[::-1], y.shape[::-1])))
     fn = g.rng.choice(["add", "subtract", "multiply", "maximum"])
     need(np.result_type(x.np.dtype, y.np.dtype) == x.np.dtype)
+    need(x.inx == 0 and y.inx == 0)  # the mask is a comparison: discontinuous in an operand that is only known up to rounding
     if fn == "multiply":
         need(x.mag <= 2**20 and y.mag <= 2**10 and x.inx == 0 and y.inx == 0)
     return {"fn": fn, "thr": g.rng.randint(-2, 3), "mask_of": g.rng.choice(["x", "y"]), "out": g.rng.choice(["x", "x", "y2", "x_shared", "x_shared"])}
